@@ -80,6 +80,24 @@ func items(tier string) []item {
 			st.SameTarget, st.Name = true, st.Name+"+same-target"
 			all(st, map[[2]int]int{{2, 1}: 2, {3, 1}: 6, {2, 2}: 6}[sh])
 		}
+		// a device that takes three quarters of the client's read timeout to answer: the third and fourth caller in the
+		// queue wait longer than a whole read timeout before their turn comes (whatever clock a call starts must not
+		// run while the call is only queueing)
+		for _, n := range []int{3, 4} {
+			sd := mk(n, 1, false, false, false)
+			sd.DeviceDelayMs = 15
+			if !netw {
+				sd.DeviceDelayMs = 75
+			}
+			sd.Name += "+slow-device"
+			all(sd, fact(n))
+		}
+		// two goroutines call Close at the same time (with and without a request in flight)
+		for _, n := range []int{0, 1} {
+			c2 := mk(n, 1, true, false, false)
+			c2.Close2, c2.Name = true, c2.Name+"+close2"
+			all(c2, 1)
+		}
 		stc := mk(2, 1, true, false, true)
 		stc.SameTarget, stc.Name = true, stc.Name+"+same-target"
 		all(stc, 6)
